@@ -834,6 +834,46 @@ func c14ScaleAgreement(c *Ctx, r *Report) {
 		if ce, ok := ast.Unparen(as.Rhs[0]).(*ast.CallExpr); ok {
 			if f := calleeFunc(info, ce); f != nil {
 				sh = shape(f)
+				if sh == "" || sh == "max" {
+					// a helper that chooses by mode itself: read its returns under the Stacked facts that hold there
+					if hd := funcDeclOf(c, f); hd != nil {
+						hinfo := hd.Pkg.TypesInfo
+						hvi := analyseVars(hinfo, hd.Decl)
+						hfg := NewFGraph(hd.Decl.Body, hinfo)
+						hfg.SolveFacts(hvi)
+						byMode := map[string]string{}
+						inspectNoLit(hd.Decl.Body, func(y ast.Node) bool {
+							rs, ok := y.(*ast.ReturnStmt)
+							if !ok || len(rs.Results) != 1 {
+								return true
+							}
+							rc, ok := ast.Unparen(rs.Results[0]).(*ast.CallExpr)
+							if !ok {
+								return true
+							}
+							rf := calleeFunc(hinfo, rc)
+							if rf == nil {
+								return true
+							}
+							for _, fct := range hfg.FactsAtPos(rs.Pos()) {
+								if fv := fieldVar(hinfo, ast.Unparen(fct.Cond)); fv != nil && fv.Name() == "Stacked" && fct.Tag == nil {
+									if fct.Truth {
+										byMode["stacked"] = shape(rf)
+									} else {
+										byMode["grouped"] = shape(rf)
+									}
+								}
+							}
+							return true
+						})
+						if len(byMode) == 2 {
+							for m, s := range byMode {
+								got[m] = s
+							}
+							return true
+						}
+					}
+				}
 			}
 		} else if as.Tok == token.ADD_ASSIGN {
 			sh = "sum" // accumulated in place
